@@ -28,7 +28,7 @@ func init() {
 		Phases: func(tier string, seed int64) []Phase {
 			return []Phase{{Name: "stop-states", Run: c11Run, Timeout: 40 * time.Minute}}
 		},
-		MinObserved: []string{"stops", "stops_with_open_connections", "stops_with_handlers_blocked_in_write", "stops_racing_run_startup", "stops_after_connection_churn", "stops_with_clients_connecting_meanwhile"},
+		MinObserved: []string{"stops", "stops_with_open_connections", "stops_with_handlers_blocked_in_write", "stops_racing_run_startup", "stops_after_connection_churn", "stops_with_clients_connecting_meanwhile", "stops_of_servers_logging_at_debug_level"},
 	})
 }
 
@@ -38,6 +38,7 @@ type c11State struct {
 	Name   string
 	Conns  int
 	Second bool
+	Debug  bool // the server logs at Debug level (its debug statements look at connection state, too)
 }
 
 // c11Startup: Stop racing Run's start-up (no client involved). Run is parked at one of its own log statements
@@ -143,6 +144,10 @@ func c11Run(c *Ctx) {
 	for i := 0; i < c.N(15, 400); i++ {
 		c11One(c, pki, c11State{Name: "idle-after-churn", Conns: i, Second: i%3 == 0})
 	}
+	// the cheap states once more with a Debug-level logger
+	for _, st := range []string{"idle", "half-frame", "tls-no-hello", "tls-partial-hello", "starttls-idle", "starttls-pending", "after-panic-storm"} {
+		c11One(c, pki, c11State{Name: st, Conns: 2, Debug: true})
+	}
 	// more connections than any small internal queue holds
 	for _, n := range []int{33, 40, 100} {
 		c11One(c, pki, c11State{Name: "idle", Conns: n, Second: n == 40})
@@ -177,6 +182,11 @@ func c11One(c *Ctx, pki *PKI, st c11State) {
 		stc = pki.ServerOnly
 	}
 	blob := strings.Repeat("y", 60000)
+	lvl := hclog.NoLevel
+	if st.Debug {
+		lvl = hclog.Debug
+		c.Count("stops_of_servers_logging_at_debug_level", 1)
+	}
 	var rt time.Duration
 	if st.Name == "connecting-while-stopping" {
 		rt = 10 * time.Minute
@@ -186,7 +196,7 @@ func c11One(c *Ctx, pki *PKI, st c11State) {
 		wt = 10 * time.Minute // a configured write timeout far beyond any bound Stop could have
 	}
 	small := strings.Repeat("s", 300)
-	srv, err := startSrv(SrvCfg{TLS: stc, WriteTimeout: wt, ReadTimeout: rt}, func(m *gldap.Mux) {
+	srv, err := startSrv(SrvCfg{TLS: stc, WriteTimeout: wt, ReadTimeout: rt, LogLevel: lvl}, func(m *gldap.Mux) {
 		m.Search(func(w *gldap.ResponseWriter, r *gldap.Request) {
 			inHandlers.Add(1)
 			defer inHandlers.Add(-1)
@@ -398,6 +408,9 @@ func c11One(c *Ctx, pki *PKI, st c11State) {
 	}
 	blocked := blockedWrites.Load()
 	sig := fmt.Sprintf("%s/n%d/second=%v", st.Name, st.Conns, st.Second)
+	if st.Debug {
+		sig += "/debug-log"
+	}
 	if st.Name == "idle-after-churn" {
 		sig = fmt.Sprintf("%s/open%d/second=%v", st.Name, len(conns), st.Second)
 	}
